@@ -26,6 +26,7 @@ struct Pipe {
   int readers = 0, writers = 0;
   size_t cap = 4096;
   unsigned wcounter = 0;   // number of writer opens so far (Linux w_counter, for FIFO hang-up readiness)
+  int id = 0;              // anonymous pipes: identity for flock (both ends share one inode on Linux)
 };
 
 struct Inode {
@@ -68,7 +69,9 @@ struct Passwd { std::string name; int uid, gid; std::string dir; };
 struct Kernel {
   std::vector<std::unique_ptr<Inode>> inodes;   // index = inode number (0 unused)
   std::vector<std::unique_ptr<Ofd>> ofds;
-  std::map<int, int> lock_holder;               // ino -> ofd index holding LOCK_EX
+  std::map<int, int> lock_holder;               // ino (or -pipe id) -> ofd index holding LOCK_EX
+  int pipe_seq = 0;
+  static int lock_key(const Ofd *f) { return f->ino ? f->ino : (f->pipe ? -f->pipe->id : 0); }
   long clock = 1000000000;
   int root = 0;
   std::vector<Passwd> passwd;
@@ -195,7 +198,7 @@ struct Kernel {
   void ofd_unref(int o) {
     Ofd *f = ofds[o].get();
     if (--f->refs > 0) return;
-    if (f->locked) { auto it = lock_holder.find(f->ino); if (it != lock_holder.end() && it->second == o) lock_holder.erase(it); }
+    if (f->locked) { auto it = lock_holder.find(lock_key(f)); if (it != lock_holder.end() && it->second == o) lock_holder.erase(it); }
     if (f->kind == K_PIPE_R && f->pipe) f->pipe->readers--;
     if (f->kind == K_PIPE_W && f->pipe) f->pipe->writers--;
     if (f->ino) {
@@ -209,7 +212,7 @@ struct Kernel {
     ofds[o].reset();
   }
   int make_pipe(int *r, int *w, size_t cap = 4096) {
-    auto p = std::make_shared<Pipe>(); p->cap = cap; p->readers = 1; p->writers = 1; p->wcounter = 1;
+    auto p = std::make_shared<Pipe>(); p->cap = cap; p->readers = 1; p->writers = 1; p->wcounter = 1; p->id = ++pipe_seq;
     *r = new_ofd(); ofds[*r]->kind = K_PIPE_R; ofds[*r]->pipe = p; ofds[*r]->flags = O_RDONLY; ofds[*r]->wcounter_at_open = 0;
     *w = new_ofd(); ofds[*w]->kind = K_PIPE_W; ofds[*w]->pipe = p; ofds[*w]->flags = O_WRONLY;
     return 0;
@@ -228,6 +231,7 @@ struct Kernel {
         }
         return false;
       }
+      case K_PIPE_W: return f->pipe->readers <= 0;   // no reader left: the error condition is reported in the read set as well (Linux POLLERR)
       default: return false;
     }
   }
